@@ -1,5 +1,5 @@
 from binascii import hexlify
-from math import sqrt
+from math import isqrt
 from os import urandom
 
 from ..primitives.structs import BonehPublicKey
@@ -41,7 +41,7 @@ def create_attest_pair(PK: BonehPublicKey,  # noqa: N803
     mst = w2 * (value - a + 1) * (b - value + 1)
     m4 = 0
     while not m4:
-        m4 = _random_number(bytespace) % (int(sqrt(mst)) - 1)
+        m4 = _random_number(bytespace) % (isqrt(mst) - 1)
     m3 = m4 * m4
     m1 = 0
     while not m1:
